@@ -127,7 +127,7 @@ def trend_cases(draw):
     case = draw(base_cases())
     case["degree"] = draw(st.integers(0, 4))
     case["damping"] = None
-    case["single"] = draw(st.integers(0, 5)) == 0  # data stored in single precision (verde then works in single precision: judged with that accuracy)
+    case["single"] = draw(st.integers(0, 2)) == 0  # data stored in single precision (verde then works in single precision: judged with that accuracy)
     return case
 
 
